@@ -37,6 +37,7 @@ type function struct {
 	function   starlark.Callable
 	oldEnv     starlark.Value
 	newEnv     starlark.Value
+	newData    string
 
 	out *lineWriter
 }
@@ -129,11 +130,21 @@ func (f *function) diffEnv() (bool, string, diff.ValueDiff, error) {
 		return false, "target has never been run", nil, nil
 	}
 
+	if f.newData != "" && f.newData == f.targetInfo.Data {
+		// Identical encodings: nothing the function refers to has changed. This also covers
+		// environments that cannot be compared structurally (self-referential data).
+		return true, "", nil, nil
+	}
+
+	// Self-referential data cannot be compared or diffed structurally (the comparison exceeds
+	// its depth limit). In that case the encodings are known to differ, and the parts of the
+	// environment are compared through their encodings instead.
 	eq, err := starlark.EqualDepth(f.oldEnv, f.newEnv, 1000)
-	if err != nil {
+	structural := err == nil
+	if err != nil && f.newData == "" {
 		return false, "", nil, fmt.Errorf("comparing function environments: %w", err)
 	}
-	if eq {
+	if structural && eq {
 		return true, "", nil, nil
 	}
 
@@ -146,19 +157,27 @@ func (f *function) diffEnv() (bool, string, diff.ValueDiff, error) {
 		return false, "", nil, fmt.Errorf("new environment is not a dict (%v)", newEnv.Type())
 	}
 
-	d, err := diff.DiffDepth(f.oldEnv, f.newEnv, 1000)
-	if err != nil {
-		return false, "", nil, fmt.Errorf("diffing environments: %w", err)
-	}
-	md, ok := d.(*diff.MappingDiff)
-	if !ok {
-		panic(fmt.Errorf("expected a diff in unequal environments"))
+	var d diff.ValueDiff
+	var md *diff.MappingDiff
+	if structural {
+		d, err = diff.DiffDepth(f.oldEnv, f.newEnv, 1000)
+		switch {
+		case err != nil && f.newData != "":
+			structural, d = false, nil
+		case err != nil:
+			return false, "", nil, fmt.Errorf("diffing environments: %w", err)
+		default:
+			md, ok = d.(*diff.MappingDiff)
+			if !ok {
+				panic(fmt.Errorf("expected a diff in unequal environments"))
+			}
+		}
 	}
 
 	var reasons []string
 
 	for _, k := range functionEnvKeys {
-		if md.Has(k) {
+		if structural && bool(md.Has(k)) || !structural && !sameEnvPart(oldEnv, newEnv, k) {
 			reasons = append(reasons, string(k))
 		}
 	}
@@ -177,11 +196,11 @@ func (f *function) diffEnv() (bool, string, diff.ValueDiff, error) {
 
 func (f *function) upToDate() (bool, string, diff.ValueDiff, error) {
 	// check env
-	newEnv, err := functionEnv(f.function)
+	newEnv, newData, err := functionEnvData(f.function)
 	if err != nil {
 		return false, "", nil, fmt.Errorf("computing function environment: %w", err)
 	}
-	f.newEnv = newEnv
+	f.newEnv, f.newData = newEnv, newData
 
 	// if this target always runs, skip the equality check
 	if f.always {
@@ -294,6 +313,36 @@ func functionEnv(f starlark.Callable) (starlark.Value, error) {
 		return nil, err
 	}
 	return pickle.NewDecoder(&buf, pickle.UnpicklerFunc(envUnpickler)).Decode()
+}
+
+// sameEnvPart reports whether the given part of two function environments is the same. Parts
+// that cannot be compared structurally are compared through their encodings.
+func sameEnvPart(x, y *starlark.Dict, key starlark.String) bool {
+	xv, xok, _ := x.Get(key)
+	yv, yok, _ := y.Get(key)
+	if !xok || !yok {
+		return xok == yok
+	}
+	if eq, err := starlark.EqualDepth(xv, yv, 1000); err == nil {
+		return eq
+	}
+	var xb, yb bytes.Buffer
+	if pickle.NewEncoder(&xb, nil).Encode(xv) != nil || pickle.NewEncoder(&yb, nil).Encode(yv) != nil {
+		return false
+	}
+	return bytes.Equal(xb.Bytes(), yb.Bytes())
+}
+
+// functionEnvData returns the given function's environment together with its encoding in the
+// form stored in target records.
+func functionEnvData(f starlark.Callable) (starlark.Value, string, error) {
+	var buf bytes.Buffer
+	if err := pickle.NewEncoder(&buf, newEnvPickler()).Encode(f); err != nil {
+		return nil, "", err
+	}
+	data := base64.StdEncoding.EncodeToString(buf.Bytes())
+	env, err := pickle.NewDecoder(&buf, pickle.UnpicklerFunc(envUnpickler)).Decode()
+	return env, data, err
 }
 
 // newEnvPickler returns the pickler for one encoding of a function's environment.
